@@ -16,6 +16,15 @@ use vstd::prelude::*;
 
 verus! {
 
+// std specifications vstd does not carry (sound: they say what the std functions do)
+pub assume_specification<T, F: FnOnce(T) -> bool>[ Option::<T>::is_none_or ](o: Option<T>, f: F) -> (r: bool)
+    requires o matches Some(v) ==> f.requires((v,)),
+    ensures o is None ==> r, o matches Some(v) ==> f.ensures((v,), r);
+pub assume_specification<T, F: FnOnce(T) -> bool>[ Option::<T>::is_some_and ](o: Option<T>, f: F) -> (r: bool)
+    requires o matches Some(v) ==> f.requires((v,)),
+    ensures o is None ==> !r, o matches Some(v) ==> f.ensures((v,), r);
+
+
 pub struct BoxError { pub code: u8 }
 pub type JobResult<T> = Result<T, BoxError>;
 
@@ -25,6 +34,7 @@ pub struct QueryResult { _p: () }
 pub struct Sql { _p: () }
 #[verifier::external_body]
 pub struct Statements { _p: () }
+impl Statements { #[verifier::external_body] pub fn len(&self) -> usize { unimplemented!() } #[verifier::external_body] pub fn is_empty(&self) -> bool { unimplemented!() } }
 #[verifier::external_body]
 pub struct ChildCtx { _p: () }
 
